@@ -203,6 +203,57 @@ def Writable (iv : Name → Bool) (c : Choices) (ds : List WDoc) : Prop := writa
 instance (iv : Name → Bool) (c : Choices) (ds : List WDoc) : Decidable (Writable iv c ds) := by
   unfold Writable; infer_instance
 
+/-! ### raw-text elements (`<script>`, `<style>`): the text is written verbatim -/
+
+/-- at this suffix no `</` begins, or the character after it is neither whitespace nor (case-insensitively, `re.I`)
+    the first letter `n0` of the element's name: `</\s*name\s*>` cannot match here -/
+def rawSafeAt (n0 : Nat) : PStr → Bool
+  | a :: b :: c :: _ => !(a == 60 && b == 47) || (!isWs c && !ciEq n0 c)
+  | _ => true
+
+def rawSafe (n0 : Nat) : PStr → Bool
+  | [] => true
+  | c :: t => rawSafeAt n0 (c :: t) && rawSafe n0 t
+
+/-- **what the text of a written `<script>`/`<style>` element must respect** (decidable, sufficient): every `</` in
+    `text ++ "<"` (the `<` of the element's own end tag, so a text ending in `</` is judged too) is followed by a character
+    that is neither whitespace nor the first letter of the element's name in either case (nor `ſ`, which `re.I` equates
+    with `s`). `<`, `&`, `</p>`, `<!--`, `&amp;` are all fine: nothing in raw text is markup.
+    The exact condition of the model is "`</\s*name\s*>` (`re.I`) matches nowhere in `text`"
+    (`search (mCdataClose name) (text ++ closeText name ++ rest) = some (text.length, _)`, hypothesis `hs` of
+    `step_raw_body`); this one is what a writer can check character by character. -/
+def rawTextOK (n t : PStr) : Bool := rawSafe (n.headD 0) (t ++ [60])
+
+/-- every character of the text is spelt literally (raw text knows no references) -/
+def allLit (sp : Nat → CharSp) : Nat → PStr → Bool
+  | _, [] => true
+  | i, _ :: rest => (match sp i with | .lit _ => true | _ => false) && allLit sp (i + 1) rest
+
+mutual
+def writableR (iv : Name → Bool) (c : Choices) : Path → WDoc → Bool
+  | p, .elem n a ks =>
+    if cdataContentElements.contains n then
+      !iv n && a.all (fun kv => nameOK kv.1) &&
+        (match ks with
+         | [.text s] => rawTextOK n s && allLit (c.char (0 :: p)) 0 s
+         | _ => false)
+    else nameOK n && a.all (fun kv => nameOK kv.1) && (iv n || writableRL iv c p 0 ks)
+  | p, .text s => charsWritable (c.char p) 0 s
+  | _, .special k s => specialWritable k s
+def writableRL (iv : Name → Bool) (c : Choices) : Path → Nat → List WDoc → Bool
+  | _, _, [] => true
+  | p, i, d :: ds => writableR iv c (i :: p) d && writableRL iv c p (i + 1) ds
+end
+
+/-- **`WritableRaw`** — `Writable` with point 2 replaced: an element named `script` or `style` is allowed when it is not
+    void for the builder, its only child is ONE text, every character of that text is spelt literally (`CharSp.lit`:
+    the text is written verbatim, `&` and `<` included) and the text respects `rawTextOK` (no `</` followed by
+    whitespace or by the first letter of the element's name in either case). Everything else as in `Writable`. -/
+def WritableRaw (iv : Name → Bool) (c : Choices) (ds : List WDoc) : Prop := writableRL iv c [] 0 ds = true
+
+instance (iv : Name → Bool) (c : Choices) (ds : List WDoc) : Decidable (WritableRaw iv c ds) := by
+  unfold WritableRaw; infer_instance
+
 /-! ### callback streams up to the cutting of character data -/
 
 /-- adjacent `data` callbacks joined: the tokenizer reports literal character data in maximal chunks, `emit` in the
